@@ -150,10 +150,10 @@ func (p *Parser) ParseConditionalExpression() *ConditionalExpression {
 		return stmt
 	}
 
-	for p.curToken.Type != EOF {
+	if p.curToken.Type != EOF {
 		stmt.Expression = p.parseExpression(precedenceValueLowset)
 
-		p.nextToken()
+		p.expectEnd()
 	}
 
 	return stmt
@@ -314,10 +314,10 @@ func (p *Parser) parseCallArguments() []Expression {
 func (p *Parser) ParseUpdateExpression() *UpdateStatement {
 	stmt := &UpdateStatement{Token: p.curToken}
 
-	for p.curToken.Type != EOF {
+	if p.curToken.Type != EOF {
 		stmt.Expression = p.parseExpression(precedenceValueLowset)
 
-		p.nextToken()
+		p.expectEnd()
 	}
 
 	return stmt
@@ -423,6 +423,22 @@ func (p *Parser) expectPeek(t TokenType) bool {
 	p.nextToken()
 
 	return true
+}
+
+// expectEnd checks that nothing follows the expression that was just parsed
+func (p *Parser) expectEnd() {
+	if p.curToken.Type == EOF || p.peekTokenIs(EOF) {
+		return
+	}
+
+	if _, ok := p.prefixParseFns[p.peekToken.Type]; !ok {
+		p.noPrefixParseFnError(p.peekToken.Type)
+
+		return
+	}
+
+	msg := fmt.Sprintf("unexpected token %q after expression", p.peekToken.Literal)
+	p.errors = append(p.errors, msg)
 }
 
 func (p *Parser) peekError(t TokenType) {
